@@ -1343,6 +1343,7 @@ package go9p
 //@   at call(path/filepath.Dir) ensures confined(arg0) && !isroot(arg0) ==> confined(ret)
 //@   at call(os.Lstat) requires [confined] confined(arg0)
 //@   at call(os.Lstat) ensures ret1 == nil ==> ret0 != nil
+//@   at call(os.Stat) requires [nofollow] false
 //@   at call((*SrvReq).RespondRwalk) requires [count] len(arg1) == i && i <= len(old(req.Tc.Wname))
 //@   at call((*SrvReq).RespondRwalk) requires [partial] i < len(old(req.Tc.Wname)) ==> fid.path == old(upath(req)) && i > 0
 //@   at call((*SrvReq).RespondRwalk) requires [complete] i == len(old(req.Tc.Wname)) ==> nfid.path == path && confined(nfid.path)
@@ -1378,8 +1379,11 @@ package go9p
 //@   assigns  fresh
 
 //@ func (*Ufs).Stat(ufs, req)
-//@   property C18 C06
+//@   property C18 C06 C16
 //@   requires ufsreq(req) && req.Conn.Srv.Upool != nil
+//@   ghost nstat int = 0
+//@   at call((*ufsFid).stat) ghost nstat := nstat + 1
+//@   at call(dir2Dir) requires [fresh] nstat == 1 && arg0 == old(upath(req)) && arg2 == req.Conn.Dotu
 
 //@ func (*Ufs).Write(ufs, req)
 //@   property C18 C17 C14 C06
@@ -1418,7 +1422,14 @@ package go9p
 //@   requires ufsreq(req) && req.Conn.Srv.Upool != nil && req.Tc.Count + 24 <= req.Conn.Msize && len(req.Rc.Buf) >= req.Conn.Msize
 //@   requires snapok(ival(req.Fid.Aux, "*ufsFid"))
 //@   at call(os.OpenFile) requires [confined] confined(arg0)
-//@   at call((*os.File).ReadAt) requires [args] len(arg1) == old(req.Tc.Count) && arg2 == wrap64s(old(req.Tc.Offset))
+//@   ghost nreadat int = 0
+//@   ghost nstat int = 0
+//@   at call((*ufsFid).stat) ghost nstat := nstat + 1
+//@   at call((*os.File).ReadAt) ghost nreadat := nreadat + 1
+//@   at call((*os.File).ReadAt) requires [args] len(arg1) == old(req.Tc.Count) && arg2 == wrap64s(old(req.Tc.Offset)) && nstat == 1
+//@   ghost isdir bool = false
+//@   at call(os.FileInfo.IsDir) after isdir := ret
+//@   at call((*SrvReq).Respond)#2 requires [fileread] nstat == 1 && (isdir || nreadat == 1)
 //@   at call((*os.File).ReadAt) ensures 0 <= ret0 && ret0 <= len(arg1)
 //@   at call((*os.File).Readdir) ensures forall k int :: 0 <= k && k < len(ret0) ==> ret0[k] != nil
 //@   at call(SetRreadCount) requires [count] arg1 <= old(req.Tc.Count)
